@@ -35,7 +35,9 @@ Section Effects.
     let o := fr_scale x drive in
     let o := if hard then (hard_clip (fst o), hard_clip (snd o))
              else (soft_clip (fst o), soft_clip (snd o)) in
-    let o := fr_div o drive in
+    (* [if drive != 0.0 { output /= drive } else { output = *frame }] (repair of F4: a drive of
+       -60 dB or less is an amplitude of exactly 0) *)
+    let o := if oeqb drive (oZ 0) then x else fr_div o drive in
     blend o x mix.
 
   (** *** the trapezoidal state-variable core shared by filter.rs and eq_filter.rs:
